@@ -213,16 +213,16 @@ def fingerprint(i):
     if i is None:
         return None
     try:
-        ops = [str(o) for o in i.operands]
+        ops = [_ADDR.sub("", str(o)) for o in i.operands]
     except Exception as e:
         ops = ["<str raises %s>" % type(e).__name__]
     misc = sorted((str(k), _canon(v)) for k, v in i.misc.items() if v is not None) if hasattr(i, "misc") else []
     attrs = []
-    if i.spec is not None:
-        for k in i.spec.iattr:
-            if k != "mnemonic" and hasattr(i, k):
-                attrs.append((k, _canon(getattr(i, k))))
-    return [bytes(i.bytes).hex(), i.mnemonic, ops, i.type, misc, sorted(attrs), i.spec.format if i.spec else None]
+    std = ("bytes", "type", "spec", "mnemonic", "operands", "misc", "address", "formatter", "xdata")
+    for k, v in sorted(vars(i).items()):
+        if k not in std and not k.startswith("_"):
+            attrs.append((k, _canon(v)))
+    return [bytes(i.bytes).hex(), i.mnemonic, ops, i.type, misc, sorted(attrs), getattr(i.spec, 'format', None)]
 
 
 def reset(d):
